@@ -4,6 +4,7 @@
    decoder level.  No axioms, no admits. *)
 From Coq Require Import List NArith Lia Bool.
 From Cfb.model Require Import Base Names DirEnt State Alloc Dir Mini Open.
+From Cfb.model Require Cfb.
 From Cfb.gen Require Import Consts.
 Import ListNotations.
 Open Scope N_scope.
@@ -829,14 +830,24 @@ Proof.
     by (apply name_chars_splice; lia).
   assert (Hlt : nlc < lenN (u16s (takeN 64 bs))) by (rewrite name_chars_len by lia; lia).
   set (g := [a; b]) in *.
-  assert (Hg : lenN g = 2) by reflexivity.
-  assert (Hle : 2 * nlc + lenN g <= lenN bs) by lia.
+  assert (Hg : @lenN byte g = 2) by reflexivity.
+  assert (Hle : 2 * nlc + @lenN byte g <= lenN bs) by lia.
   apply N.eqb_neq in Hnz.
-  assert (64 + 2 <= 2 * nlc \/ 2 * nlc + lenN g <= 64) by lia.
-  split; revert H; unfold dirent_decode; cbv zeta; rewrite Hchars. rewrite (win_splice_outside _ _ _ 64 2 Hle) by lia. Show. all: 
+  split; revert H; unfold dirent_decode; cbv zeta; rewrite Hchars; splice_simpl Hle; fold nlb; fold nlc; 
     rewrite takeN_updN, (nthN_updN_same _ _ _ Hlt).
   - repeat step; exact (fun H => H).
   - repeat step; intros _; rewrite Hnz; reflexivity.
 Qed.
 
+(* ------------------------------------------------------------------ *)
+(* Non-vacuity: strict mode accepts the freshly created files           *)
+(* ------------------------------------------------------------------ *)
+
+Example strict_accepts_fresh_images :
+  is_ok (open_model true (concat (Cfb.model.Cfb.create_image V3))) = true /\
+  is_ok (open_model true (concat (Cfb.model.Cfb.create_image V4))) = true.
+Proof. split; vm_compute; reflexivity. Qed.
+
 Print Assumptions strict_implies_permissive.
+Print Assumptions tolerated_unterminated_name.
+Print Assumptions tolerated_root_name.
